@@ -108,6 +108,7 @@ Cands ==
           THEN {[k |-> "with", inner |-> i, q |-> q, force |-> f] : i \in Free, q \in Presets, f \in BOOLEAN}
           ELSE {})
     \cup (IF want = "cached" THEN {[k |-> "cached", inner |-> i] : i \in Free} ELSE {})
+    \cup (IF want = "logged" THEN {[k |-> "logged", inner |-> i, first |-> f] : i \in Free, f \in BOOLEAN} ELSE {})
     \cup (IF want = "ds"
           THEN {[k |-> "ds", dflt |-> f, disp |-> dp, tab |-> IF dp = 0 THEN 0 ELSE Len(tabs) + 1,
                  q |-> q, dd |-> dd, cb |-> cb, effs |-> ef, effoff |-> FALSE, cache |-> c] :
@@ -137,7 +138,7 @@ ChildSlots(nd) ==
       [] nd.k = "case" -> <<nd.d, nd.dflt>> \o Cat([i \in 1 .. Len(nd.cases) |-> <<nd.cases[i].c, nd.cases[i].n>>])
       [] nd.k \in {"coalesce", "coll"} -> nd.ms
       [] nd.k = "map" -> <<nd.inner>> \o [i \in 1 .. Len(nd.its) |-> nd.its[i].n]
-      [] nd.k \in {"with", "cached"} -> <<nd.inner>>
+      [] nd.k \in {"with", "cached", "logged"} -> <<nd.inner>>
       [] nd.k = "ds" -> <<nd.dflt, nd.disp>>
       [] nd.k = "dsof" -> <<>>
       [] nd.k = "fnapp" -> nd.args
@@ -175,7 +176,7 @@ Dicts == DictsFor(Mentions(Root))
 KindCode(k) ==
     CASE k = "val" -> 1 [] k = "opt" -> 2 [] k = "pred" -> 3 [] k = "tmpl" -> 4 [] k = "apply" -> 5 [] k = "bind" -> 6
       [] k = "switch" -> 7 [] k = "case" -> 8 [] k = "coalesce" -> 9 [] k = "coll" -> 10 [] k = "map" -> 11
-      [] k = "with" -> 12 [] k = "cached" -> 13 [] k = "ds" -> 14 [] k = "dsof" -> 15 [] k = "fnapp" -> 16 [] OTHER -> 17
+      [] k = "with" -> 12 [] k = "cached" -> 13 [] k = "ds" -> 14 [] k = "dsof" -> 15 [] k = "fnapp" -> 16 [] k = "logged" -> 18 [] OTHER -> 17
 RECURSIVE SumSeq(_, _)
 SumSeq(s, i) == IF i > Len(s) THEN 0 ELSE s[i] + SumSeq(s, i + 1)
 GraphHash == SumSeq([i \in 1 .. Len(nodes) |-> i * KindCode(nodes[i].k) + SumSeq(ChildSlots(nodes[i]), 1)], 1)
@@ -249,11 +250,11 @@ ExplainFailsOnlyInsufficient == AllObs(ExplainFailsOnlyInsufficientAt)
 (* Universes of the families (cfg files substitute these for the constants) *)
 pA == <<"A">>  pB == <<"B">>  pC == <<"C">>  pSX == <<"S", "X">>  pSY == <<"S", "Y">>  pL1 == <<"L", "1">>
 NoRaises == {}
-SK_all == {"val", "allopts", "opt", "pred", "tmpl", "apply", "bind", "switch", "case", "coalesce", "coll", "map", "with", "cached", "ds", "fnapp"}
+SK_all == {"val", "allopts", "opt", "pred", "tmpl", "apply", "bind", "switch", "case", "coalesce", "coll", "map", "with", "cached", "ds", "fnapp", "logged"}
 SK_leafish == {"opt", "val", "pred", "fnapp", "tmpl", "allopts"}
 SK_val == {"val"}  SK_opt == {"opt"}  SK_pred == {"pred"}  SK_tmpl == {"tmpl"}  SK_apply == {"apply"}  SK_bind == {"bind"}
 SK_switch == {"switch"}  SK_case == {"case"}  SK_coalesce == {"coalesce"}  SK_coll == {"coll"}  SK_map == {"map"}
-SK_with == {"with"}  SK_dsof == {"dsof"}  SK_wrap == {"with", "ds", "dsof"}  SK_cached == {"cached"}  SK_ds == {"ds"}  SK_fnapp == {"fnapp"}
+SK_with == {"with"}  SK_dsof == {"dsof"}  SK_wrap == {"with", "ds", "dsof"}  SK_cached == {"cached"}  SK_ds == {"ds"}  SK_fnapp == {"fnapp"}  SK_logged == {"logged"}  SK_applyfn == {"apply", "fnapp"}
 None0 == {}
 NoSeq == <<>>
 
@@ -427,6 +428,16 @@ FS_Coll == {"list"}
 FS_Leaves == <<[p |-> pA, vals |-> {I(1)}, extra |-> FALSE],
                [p |-> pSX, vals |-> {I(2)}, extra |-> FALSE],
                [p |-> <<"Z">>, vals |-> {I(7)}, extra |-> TRUE]>>
+
+\* family "logging" (C16, C05, C18): Logged(inner, level, name, msg, log_first) wrappers anywhere in a graph
+FLG_Kinds == {"val", "opt", "fnapp", "apply", "switch", "coalesce", "coll", "logged"}
+FLG_Paths == {pA, pB}
+FLG_Consts == {I(1)}
+FLG_Fns == {"g"}
+FLG_Bodies == {"f"}
+FLG_Disp == <<I(1)>>
+FLG_Leaves == <<[p |-> pA, vals |-> {I(0), I(1)}, extra |-> FALSE],
+                [p |-> pB, vals |-> {I(1)}, extra |-> FALSE]>>
 
 -----------------------------------------------------------------------------
 \* one self-contained CASE line per observation: the graph, the tables, the call and everything
